@@ -181,6 +181,25 @@ func (fr *frame) havocLoop(st *PState, b *ssa.BasicBlock, ord int) {
 					}
 					continue
 				}
+				// the codec writes through its target pointer: a target that lives outside the loop changes
+				if c.IsInvoke() && len(c.Args) == 2 && (strings.HasPrefix(c.Method.Name(), "MustUnmarshal") || strings.HasPrefix(c.Method.Name(), "Unmarshal")) {
+					if mi, ok := c.Args[1].(*ssa.MakeInterface); ok {
+						if pt, isPtr := mi.X.Type().Underlying().(*types.Pointer); isPtr {
+							switch p := fr.valOrNil(st, mi.X).(type) {
+							case *PtrVal:
+								fr.havocPtrRoot(st, p)
+							case T:
+								name, h := st.Heap(pt.Elem())
+								st.SetHeap(name, st.Fresh(name+"_loop", h.Sort))
+							default:
+								if a, isAlloc := mi.X.(*ssa.Alloc); !isAlloc || !fr.loopBody[b][a.Block()] {
+									name, h := st.Heap(pt.Elem())
+									st.SetHeap(name, st.Fresh(name+"_loop", h.Sort))
+								}
+							}
+						}
+					}
+				}
 				eff := fr.callEffects(st, c, 0)
 				for _, v := range eff.views {
 					views = append(views, v)
